@@ -491,3 +491,73 @@ Proof.
   constructor; cbn; try discriminate; try contradiction; auto.
   - intros i u t n [H|H]; discriminate.
 Qed.
+
+(* ------------------------------------------------------------------ *)
+(* 7. status table, whole file, nofollow                                *)
+(* ------------------------------------------------------------------ *)
+(* what a FINAL (non-redirect) robots.txt response does to the pool and to the item *)
+Lemma final_response_table cfg p i u n s hl loc body :
+  is_redirect_status s = false ->
+  on_robots_response cfg p i u n (Resp s hl loc body) =
+    if (500 <=? s) && (s <=? 599) then (p, WIdle, [EvPostponed i u])
+    else let rules := if s =? 200 then parse_robots body else [] in
+         let '(w, ev) := decide cfg i u rules in
+         (pool_store p (u_origin u) rules, w, ev ++ [EvStored i (u_origin u) rules]).
+Proof.
+  intros H. unfold on_robots_response. rewrite (session_final _ _ _ _ _ _ H). unfold status_action.
+  destruct ((500 <=? s) && (s <=? 599)); [reflexivity|]. destruct (s =? 200); reflexivity.
+Qed.
+
+Lemma missing_allows cfg p i u n s hl loc body :
+  is_redirect_status s = false -> ~ (500 <= s <= 599) -> s <> 200 ->
+  on_robots_response cfg p i u n (Resp s hl loc body) =
+    (pool_store p (u_origin u) [], WFetchSend u u false, [EvStored i (u_origin u) []])
+  /\ forall ua url, is_allowed [] ua url = true.
+Proof.
+  intros H1 H2 H3. split; [|reflexivity]. rewrite (final_response_table _ _ _ _ _ _ _ _ _ H1).
+  destruct ((500 <=? s) && (s <=? 599)) eqn:E; [lia|]. destruct (s =? 200) eqn:E2; [lia|]. reflexivity.
+Qed.
+
+Lemma server_error_postpones cfg p i u n s hl loc body :
+  500 <= s <= 599 ->
+  on_robots_response cfg p i u n (Resp s hl loc body) = (p, WIdle, [EvPostponed i u]).
+Proof.
+  intros H. assert (R : is_redirect_status s = false) by (unfold is_redirect_status; lia).
+  rewrite (final_response_table _ _ _ _ _ _ _ _ _ R).
+  destruct ((500 <=? s) && (s <=? 599)) eqn:E; [reflexivity | lia].
+Qed.
+
+Lemma whole_file cfg p i u n hl loc body :
+  exists w ev, on_robots_response cfg p i u n (Resp 200 hl loc body) =
+               (pool_store p (u_origin u) (parse_robots body), w, ev)
+               /\ pool_lookup (pool_store p (u_origin u) (parse_robots body)) (u_origin u) = Some (parse_robots body).
+Proof.
+  rewrite final_response_table by reflexivity. cbn [N.leb N.eqb andb Pos.eqb].
+  change ((500 <=? 200) && (200 <=? 599)) with false. change (200 =? 200) with true. cbv iota.
+  destruct (decide cfg i u (parse_robots body)) as [w ev]. exists w, (ev ++ [EvStored i (u_origin u) (parse_robots body)]).
+  split; [reflexivity|]. rewrite pool_lookup_store, origin_eqb_refl. reflexivity.
+Qed.
+
+Lemma robots_cannot_follow_spec e :
+  robots_cannot_follow e = true <->
+  e_tag e = kw_meta /\ lower (e_name e) = kw_robots /\ exists a b, lower (e_content e) = a ++ kw_nofollow ++ b.
+Proof.
+  unfold robots_cannot_follow. rewrite !andb_true_iff, !seqb_eq, is_infix_spec. tauto.
+Qed.
+
+Lemma nofollow_drops_linked elems links :
+  existsb robots_cannot_follow elems = true ->
+  (forall l, In l (scrape_nofollow true elems links) -> lc_linked l = false) /\
+  (forall l, In l links -> lc_linked l = false -> In l (scrape_nofollow true elems links)) /\
+  (forall l, In l (scrape_nofollow true elems links) -> In l links).
+Proof.
+  intros H. unfold scrape_nofollow. rewrite H. cbn [andb]. repeat split.
+  - intros l Hl. apply filter_In in Hl. destruct Hl as [_ Hl]. now destruct (lc_linked l).
+  - intros l Hl Hk. apply filter_In. split; [assumption|]. now rewrite Hk.
+  - intros l Hl. apply filter_In in Hl. tauto.
+Qed.
+
+Lemma nofollow_off_keeps elems links :
+  scrape_nofollow false elems links = links /\
+  (existsb robots_cannot_follow elems = false -> scrape_nofollow true elems links = links).
+Proof. unfold scrape_nofollow. split; [reflexivity|]. intros ->. reflexivity. Qed.
